@@ -73,10 +73,10 @@ def p1(ck: Check) -> None:
     gs, ss = _sd(ck, "__getstate__"), _sd(ck, "__setstate__")
     declared = set(ck.prog.repo.typeddict_keys("SuccessionDiagramState"))
     rets = [r for r in own_walk(gs.f.node) if isinstance(r, ast.Return)]
-    if len(rets) != 1 or not isinstance(rets[0].value, ast.Dict):
+    saved = _saved_state(gs)
+    if len(rets) != 1 or saved is None:
         ck.ob("P1", gs, gs.f.node, False, "__getstate__ does not return a dict display", key="getstate")
         return
-    saved = {k.value: v for k, v in zip(rets[0].value.keys, rets[0].value.values) if isinstance(k, ast.Constant)}
     state_p = [p for p in ss.f.params() if p != "self"][0]
     read = {}
     for n in own_walk(ss.f.node):
@@ -102,8 +102,8 @@ def p1(ck: Check) -> None:
         if isinstance(n, ast.Assign) and isinstance(n.targets[0], ast.Attribute) and text(n.targets[0].value) == "self":
             slot = n.targets[0].attr
             if slot in saved and slot in slots:
-                if text(n.value) != f"{state_p}['{slot}']":
-                    if slot == "node_indices" and "space_unique_key" in text(n.value):
+                if text(ss.deref(n.value, ss.cfgn(n))) != f"{state_p}['{slot}']":
+                    if slot == "node_indices" and _index_recomputed(ss) is not None:
                         continue  # recomputed for the restored network: decided by P3
                     probs.append(f"slot `{slot}` restored from `{text(n.value)}`")
     ck.ob("P1", ss, ss.f.node, not probs, "; ".join(probs) if probs else "every persisted slot restored from its own key",
@@ -173,6 +173,19 @@ def _text_normalised(prog, fm: FuncModel, e: ast.AST, at, depth=0, env=None) -> 
     return False, f"`{text(e)[:50]}`"
 
 
+def _saved_state(gs: FuncModel) -> dict | None:
+    """key -> value expression of the dict returned by __getstate__ (locals standing for a value are looked through)."""
+    rets = [r for r in own_walk(gs.f.node) if isinstance(r, ast.Return)]
+    if len(rets) != 1:
+        return None
+    at = gs.cfgn(rets[0])
+    d = gs.deref(rets[0].value, at)
+    if not isinstance(d, ast.Dict):
+        return None
+    dn = gs.cfgn(d) if d is not rets[0].value else at
+    return {k.value: gs.deref(v, dn) for k, v in zip(d.keys, d.values) if isinstance(k, ast.Constant)}
+
+
 def _index_recomputed(ss: FuncModel):
     """If __setstate__ assigns node_indices from something other than the persisted dict: is it a recomputation of
     every node's key with space_unique_key(<space of the node>, self.network), after self.network was restored?"""
@@ -185,27 +198,44 @@ def _index_recomputed(ss: FuncModel):
     if text(v) == f"{state_p}['node_indices']":
         return None
     probs = []
-    if not (isinstance(v, ast.DictComp) and len(v.generators) == 1 and not v.generators[0].ifs):
+    # spelling 1: dict comprehension; spelling 2: an empty dict filled by `d[key] = id` in a loop over all nodes
+    k = val = itx = tgt = at = None
+    if isinstance(v, ast.DictComp) and len(v.generators) == 1 and not v.generators[0].ifs:
+        g = v.generators[0]
+        k, val, itx, tgt = v.key, v.value, g.iter, g.target
+        at = ss.cfgn(ass[0])
+        rename = True
+    elif isinstance(v, ast.Name):
+        vd = ss.value_defs(v.id, ss.cfgn(ass[0]))
+        stores = [n for n in own_walk(ss.f.node) if isinstance(n, ast.Assign) and isinstance(n.targets[0], ast.Subscript)
+                  and text(n.targets[0].value) == v.id]
+        if len(vd) == 1 and isinstance(vd[0][1], ast.Dict) and not vd[0][1].keys and len(stores) == 1:
+            st = stores[0]
+            lps = [l for l in ss.cfg.enclosing_loops(ss.cfgn(st)) if isinstance(l, ast.For)]
+            if len(lps) == 1 and not any(isinstance(x, (ast.If, ast.Break, ast.Continue)) for x in ast.walk(lps[0])):
+                k, val, itx, tgt = ss.deref(st.targets[0].slice, ss.cfgn(st)), st.value, lps[0].iter, lps[0].target
+                at = ss.cfgn(st)
+                rename = False
+    if k is None:
         return False, "node_indices is neither the persisted dict nor a recomputation over all nodes"
-    g = v.generators[0]
-    k = v.key
     if not (isinstance(k, ast.Call) and callee_name(k) == "space_unique_key" and len(k.args) == 2 and text(k.args[1]) == "self.network"):
         probs.append("keys are not space_unique_key(space, self.network)")
     else:
-        sp = text(k.args[0])
-        tgt = text(g.target)
-        if not (sp.endswith("['space']") and tgt.split(",")[0].strip("( ") in sp):
-            probs.append(f"key computed from `{sp}`, not from the space of the enumerated node")
-        if text(v.value) not in tgt:
+        first = next((x.id for x in ast.walk(tgt) if isinstance(x, ast.Name)), "?")
+        spk = ss.key(k.args[0], ss.cfgn(k) if not rename else at) if not rename else text(k.args[0])
+        if not ((spk.startswith("FIELD<self|") and spk.endswith("|space>") and f"|{first}|" in spk) or
+                (spk.endswith("['space']") and first in spk)):
+            probs.append(f"key computed from `{text(k.args[0])}`, not from the space of the enumerated node")
+        if text(val) not in text(tgt):
             probs.append("value is not the enumerated node id")
-    it = text(g.iter)
+    it = text(itx)
     if not (it in (f"{state_p}['node_indices'].values()", "self.dag.nodes", "self.dag.nodes()", "self.node_ids()",
                    "self.dag.nodes(data=True)", "range(len(self))")):
         probs.append(f"the index is rebuilt over `{it}`, not over all nodes")
     nets = [n for n in own_walk(ss.f.node) if isinstance(n, (ast.Assign, ast.AnnAssign))
             and text(n.targets[0] if isinstance(n, ast.Assign) else n.target) in ("self.network", "self.dag") and n.value is not None]
     for n in nets:
-        if ss.cfgn(ass[0]).id not in ss.cfg.reach_avoiding(ss.cfgn(n), []):
+        if at.id not in ss.cfg.reach_avoiding(ss.cfgn(n), []):
             probs.append(f"the index is rebuilt before `{text(n.targets[0] if isinstance(n, ast.Assign) else n.target)}` is restored")
     if probs:
         return False, "; ".join(probs)
@@ -224,10 +254,7 @@ def p3(ck: Check) -> None:
                     and text(sd[1].args[1]) == "self.network":
                 sens = True
     gs = _sd(ck, "__getstate__")
-    saved = {}
-    for r in own_walk(gs.f.node):
-        if isinstance(r, ast.Return) and isinstance(r.value, ast.Dict):
-            saved = {k.value: v for k, v in zip(r.value.keys, r.value.values) if isinstance(k, ast.Constant)}
+    saved = _saved_state(gs) or {}
     if not sens or "node_indices" not in saved:
         ck.ob("P3", en, en.f.node, True, "no persisted field depends on variable indices", key="index sensitivity")
         ck.floors.pop("C16-P3", None)
